@@ -765,3 +765,113 @@ Proof. vm_compute. reflexivity. Qed.
 Lemma now_simple_true_is_clean :
   snd (f_dec_run (fst (f_dec_run (c_new_decoder dinput1) dhist)) dnext) = [ODUnit; ODUnit; ODecoded DNil (Some EOther) false].
 Proof. vm_compute. reflexivity. Qed.
+
+(* ------------------------------------------------------------------------------------- *)
+(* who holds a pooled object                                                             *)
+(* ------------------------------------------------------------------------------------- *)
+From Coq Require Import Permutation Arith.
+
+Lemma existsb_eqb_In x l : existsb (Nat.eqb x) l = true <-> In x l.
+Proof.
+  rewrite existsb_exists. split.
+  - intros (y & Hy & E). apply Nat.eqb_eq in E. subst. exact Hy.
+  - intros H. exists x. split; [exact H|apply Nat.eqb_refl].
+Qed.
+
+Lemma nodupb_NoDup l : nodupb l = true <-> NoDup l.
+Proof.
+  induction l as [|x r IH]; cbn.
+  - split; [constructor|reflexivity].
+  - rewrite andb_true_iff, negb_true_iff, IH. split.
+    + intros [H1 H2]. constructor; [|exact H2]. intros Hin. apply existsb_eqb_In in Hin. congruence.
+    + intros H. inversion H; subst. split; [|assumption].
+      destruct (existsb (Nat.eqb x) r) eqn:E; [|reflexivity]. apply existsb_eqb_In in E. contradiction.
+Qed.
+
+Lemma remove_nth_perm {A} : forall k (l : list A) x, nth_error l k = Some x -> Permutation l (x :: remove_nth k l).
+Proof.
+  induction k as [|k IH]; intros [|y r] x H; cbn in *; try discriminate.
+  - inversion H; subst. apply Permutation_refl.
+  - specialize (IH r x H). eapply perm_trans; [apply perm_skip; exact IH|apply perm_swap].
+Qed.
+
+Lemma remove_held_perm u x : forall l,
+  existsb (fun p => Nat.eqb u (fst p) && Nat.eqb x (snd p)) l = true ->
+  Permutation (map snd l) (x :: map snd (remove_held u x l)).
+Proof.
+  induction l as [|[u' x'] r IH]; cbn; [discriminate|].
+  destruct (Nat.eqb u u' && Nat.eqb x x') eqn:E; cbn.
+  - intros _. apply andb_prop in E as [_ E2]. apply Nat.eqb_eq in E2. subst. apply Permutation_refl.
+  - intros H. specialize (IH H). eapply perm_trans; [apply perm_skip; exact IH|apply perm_swap].
+Qed.
+
+Definition oinv (st : ostate) : Prop := NoDup (objects st) /\ Forall (fun x => x < o_next st) (objects st).
+
+Lemma oinv_init : oinv oinit.
+Proof. split; constructor. Qed.
+
+Lemma ostep_inv st o :
+  oinv st -> match o with OFree u x => holds st u x = true | OGet _ _ => True end -> oinv (ostep st o).
+Proof.
+  intros [Hn Hb] Hd. unfold oinv, objects in *. destruct o as [u choice|u x]; cbn [ostep].
+  - assert (Fresh : NoDup (o_pool st ++ map snd ((u, o_next st) :: o_held st)) /\
+                    Forall (fun x => x < S (o_next st)) (o_pool st ++ map snd ((u, o_next st) :: o_held st))).
+    { cbn [map snd]. split.
+      - apply (proj2 (NoDup_Add (Add_app (o_next st) (o_pool st) (map snd (o_held st))))).
+        split; [exact Hn|]. intros Hin. rewrite Forall_forall in Hb. specialize (Hb _ Hin). lia.
+      - rewrite Forall_forall in *. intros y Hy. apply in_app_or in Hy as [Hy|[Hy|Hy]].
+        + specialize (Hb y (in_or_app _ _ _ (or_introl Hy))). lia.
+        + subst. lia.
+        + specialize (Hb y (in_or_app _ _ _ (or_intror Hy))). lia. }
+    destruct choice as [k|]; [|exact Fresh].
+    destruct (nth_error (o_pool st) k) as [x|] eqn:E; [|exact Fresh].
+    cbn [o_pool o_held o_next map snd].
+    assert (P : Permutation (o_pool st ++ map snd (o_held st)) (remove_nth k (o_pool st) ++ x :: map snd (o_held st))).
+    { eapply perm_trans; [apply Permutation_app_tail; apply (remove_nth_perm k _ x E)|]. cbn. apply Permutation_middle. }
+    split; [eapply Permutation_NoDup; eassumption|eapply Permutation_Forall; eassumption].
+  - cbn [o_pool o_held o_next].
+    assert (P : Permutation (o_pool st ++ map snd (o_held st)) ((x :: o_pool st) ++ map snd (remove_held u x (o_held st)))).
+    { cbn. eapply perm_trans; [apply Permutation_app_head; apply (remove_held_perm u x _ Hd)|].
+      apply Permutation_sym. apply Permutation_middle. }
+    split; [eapply Permutation_NoDup; eassumption|eapply Permutation_Forall; eassumption].
+Qed.
+
+Lemma orun_inv : forall ops st, oinv st -> disciplined st ops = true -> oinv (orun st ops).
+Proof.
+  induction ops as [|o r IH]; intros st Hi Hd; cbn [orun]; [exact Hi|].
+  cbn [disciplined] in Hd. apply andb_prop in Hd as [H1 H2].
+  apply IH; [|exact H2]. apply ostep_inv; [exact Hi|]. destruct o; [exact I|exact H1].
+Qed.
+
+(* every history of any number of users in which a user frees only what it holds (once: it stops
+   holding it), for every choice of the pool: no object is ever in the pool twice, in the pool and
+   held, or held by two users *)
+Lemma disciplined_exclusive (ops : list oop) : disciplined oinit ops = true -> exclusive (orun oinit ops) = true.
+Proof. intros H. apply nodupb_NoDup. exact (proj1 (orun_inv ops oinit oinv_init H)). Qed.
+
+(* ... and every prefix of it: the invariant holds at every instant *)
+Lemma disciplined_prefix : forall ops st a b, ops = a ++ b -> disciplined st ops = true -> disciplined st a = true.
+Proof.
+  induction ops as [|o r IH]; intros st a b E H.
+  - destruct a; [reflexivity|discriminate].
+  - destruct a as [|o' a']; [reflexivity|]. cbn in E. inversion E; subst. cbn [disciplined] in *.
+    apply andb_prop in H as [H1 H2]. rewrite H1. cbn. eapply IH; [reflexivity|exact H2].
+Qed.
+
+(* one Free too many (a deferred Free plus an explicit one on the same path): user 1 frees object 0
+   twice; the pool then gives object 0 to user 2 AND to user 3 *)
+Definition double_free_history : list oop :=
+  [OGet 1 None; OFree 1 0; OFree 1 0; OGet 2 (Some 0); OGet 3 (Some 0)].
+
+Lemma double_free_breaks_exclusivity :
+  disciplined oinit double_free_history = false /\
+  o_held (orun oinit double_free_history) = [(3, 0); (2, 0)] /\
+  exclusive (orun oinit double_free_history) = false.
+Proof. repeat split; reflexivity. Qed.
+
+(* a disciplined history with reuse, several users, interleaved: non-vacuity *)
+Definition sample_owner_history : list oop :=
+  [OGet 1 None; OGet 2 None; OFree 1 0; OGet 3 (Some 0); OFree 2 1; OFree 3 0; OGet 1 (Some 1); OGet 2 (Some 0)].
+Lemma sample_owner_history_ok :
+  disciplined oinit sample_owner_history = true /\ o_held (orun oinit sample_owner_history) = [(2, 0); (1, 1)].
+Proof. split; reflexivity. Qed.
